@@ -1,4 +1,6 @@
 import PV.C13.FParsedBridge
+import PV.C13.FStrRun
+import PV.C13.WPOrd
 import PV.C13.ParsedConf
 import PV.C13.ParsedThm
 import PV.C02.FProgThm
@@ -11,6 +13,9 @@ import PV.C02.FProgThm
   * `strings_single_fstr_jOrd` (FStrTok.lean): … hence the `JoinedStr` the string production builds for ONE f-string token
     that is not part of an implicit concatenation;
   * `single_fstr_token_walkable` (FStrWalk.lean): … and the `LinearLocator` fold model walks that tree;
+  * `strings_fstr_weak` (FStrRun.lean): for EVERY run of string tokens (concatenations too) the pieces have the accepted
+    shape with `ordE` field expressions and the field expressions of all literals chain through the `JoinedStr` — all of
+    `jOrd` except "every piece carries the range of the whole", which is exactly what the listed finding violates;
   * `nw_joined` (FStrLook.lean), `F.srcOrdered_of_ordM` (FParsedBridge.lean): the tree half of the capstone with f-strings
     admitted — `F.ordM m → OffsOk src (toTree ar m) → SrcOrdered realCfg src (toTree ar m)` for EVERY ranged tree, and from
     it the two sentences of the property (`fordM_locations_eq_spec`, `fordM_linear_eq_random` below).
@@ -71,6 +76,13 @@ def parsed_ordM_fstr_full : Prop :=
   ∀ (src : List Nat) (toks : List RPTok) (mode : PV.Prog.Mode) (m : RMod), TiledP src toks → FTiedP src toks = true →
     parseRProgram mode toks = some m → fplainOrd toks m = true → F.ordM m = true
 
+/-- the same statement with the weak clause and WITHOUT the exclusion of concatenations (what `strings_fstr_weak` makes
+    provable by a plain re-run of the two parser inductions over C02's tied induction): stated, not proved; evaluated.
+    `F.ordM` then follows for the trees in which every piece carries the range of its `JoinedStr` (a property of the tree). -/
+def parsed_wordM_fstr_full : Prop :=
+  ∀ (src : List Nat) (toks : List RPTok) (mode : PV.Prog.Mode) (m : RMod), TiledP src toks → FTiedP src toks = true →
+    parseRProgram mode toks = some m → fplainM1 m = true → W.ordM m = true
+
 /-! ### non-vacuity: `x = g(k=f'{z}', *a)` LF `y = f'{x!r:>{w}} {y}'` LF
 
   an f-string as a call keyword (located by look-ahead, in front of a starred argument) and one with a conversion, a nested
@@ -118,12 +130,12 @@ example : ∀ m, fstrExMod = some m →
 /-! ### the two listed f-string findings, against the new predicates -/
 
 /-- `f'{x}' f'{y}'` (`fconcatToks`, ParsedThm.lean): tiled, TIED, one level deep — but an implicit concatenation with an
-    f-string: outside `fplainOrd`; the pieces carry the ranges of their own literals, `F.ordM` is false, and the tree is not
+    f-string: outside `fplainOrd`; the pieces carry the ranges of their own literals, the weak layout `W.ordM` holds, `F.ordM` is false, and the tree is not
     `SrcOrdered` (listed finding `linear-fstring-concat-piece-range`) -/
 theorem fstr_concat_not_fordM :
     (TiledP fconcatText fconcatToks ∧ FTiedP fconcatText fconcatToks = true) ∧
-    (parseRProgram .module fconcatToks).map (fun m => (fplainM1 m, fplainOrd fconcatToks m, F.ordM m,
-      decide (SrcOrdered realCfg fconcatText (toTree false m)))) = some (true, false, false, false) := by
+    (parseRProgram .module fconcatToks).map (fun m => (fplainM1 m, fplainOrd fconcatToks m, W.ordM m, F.ordM m,
+      decide (SrcOrdered realCfg fconcatText (toTree false m)))) = some (true, false, true, false, false) := by
   refine ⟨by decide +kernel, by decide +kernel⟩
 
 /-- CR LF inside a triple-quoted f-string (`fcrlfToks`): the token value (line ends folded to LF by the lexer) is NOT the
